@@ -45,7 +45,7 @@ void xcm_tp_socket_destroy(struct xcm_socket *s) { if (s == NULL) return; struct
 static int g_finish_calls, g_eagain; static bool g_finish_hard;
 int xcm_tp_socket_finish(struct xcm_socket *s)
 {
-    CHECK(ts_of(s)->st == ts_open, "C08: finish on an open socket"); g_finish_calls++;
+    CHECK(ts_of(s)->st == ts_open, "C08: the transport is asked to finish outstanding work only on a connected/accepted socket (on a merely initialised one the transports abort)"); g_finish_calls++;
     int m = (int)nd_range(0, 2); if (m == 1 && g_eagain >= 2) m = 0;
     if (m == 1) { g_eagain++; errno = nd_bool() ? EAGAIN : EINPROGRESS; return -1; }
     if (m == 2) { g_finish_hard = true; errno = ECONNREFUSED; return -1; }
@@ -73,10 +73,10 @@ int attr_tree_set_value(struct attr_tree *t, const char *name, enum xcm_attr_typ
 { (void)t; (void)type; (void)l; g_sets++; struct xcm_socket *s = ctx;
   CHECK(ts_of(s)->st == ts_inited, "C11: creation-time attributes are applied after init and before connect/server/accept");
   if (nd_bool()) { g_attr_refused = true; errno = nd_bool() ? EINVAL : EACCES; return -1; }
-  if (strcmp(name, XCM_ATTR_XCM_BLOCKING) == 0) s->is_blocking = *(const bool *)v;
+  if (strcmp(name, XCM_ATTR_XCM_BLOCKING) == 0) return xcm_set_blocking(s, *(const bool *)v);      /* what set_blocking_attr (xcm_tp.c, tp.service) does: the real xcm_set_blocking */
   return 0; }
 static struct { int d; } map_tok; static bool g_map_blocking_val;
-bool xcm_attr_map_exists(const struct xcm_attr_map *m, const char *n) { (void)m; (void)n; return false; }
+bool xcm_attr_map_exists(const struct xcm_attr_map *m, const char *n) { return m != NULL && strcmp(n, XCM_ATTR_XCM_BLOCKING) == 0; }      /* the mock map holds xcm.blocking and one other attribute */
 void xcm_attr_map_foreach(const struct xcm_attr_map *m, xcm_attr_map_foreach_cb cb, void *u)
 { (void)m; cb(XCM_ATTR_XCM_BLOCKING, xcm_attr_type_bool, &g_map_blocking_val, sizeof(bool), u); cb("x", xcm_attr_type_bool, &g_map_blocking_val, sizeof(bool), u); }
 const char *xcm_version(void) { return "v"; }
@@ -132,6 +132,11 @@ int main(void)
 	struct tsock *k = ts_of(s);
 	CHECK(k->st == ts_open && g_xp_live == 1, "C08: a returned socket is open and owns exactly one epoll instance");
 	CHECK(k == &socks[n_socks - 1], "C08: ... and is the only socket object left from this call");
+#ifdef OP_LIFE_ACCEPT
+	CHECK(s->is_blocking == (attrs != NULL ? g_map_blocking_val : srv_blocking), "C11: an accepted connection has the mode given in xcm_accept_a's attributes, else the server socket's");
+#elif defined(OP_LIFE_CONNECT)
+	CHECK(s->is_blocking == (attrs != NULL ? g_map_blocking_val : true), "C11: a connection has the mode given in xcm_connect_a's attributes, else blocking");
+#endif
 	nothing_left(n_socks);                       /* vacuous range, checks trees */
 	for (int i = first; i < NS; i++) if (i < n_socks - 1) CHECK(socks[i].st == ts_destroyed, "C08: socket objects of earlier rounds of a blocking accept are destroyed");
 	if (nd_bool()) { CHECK(xcm_close(s) == 0, "C08: xcm_close succeeds"); CHECK(k->closes == 1 && k->cleanups == 0, "C08: xcm_close closes the transport"); }
